@@ -29,7 +29,7 @@ META = {
     "design_ref": "DESIGN.md §3 C14",
     "engines": ["proggen", "backends"],
 }
-REQUIRED = ("bruteforce_programs", "grid_programs", "programs_with_failures", "programs_split_and_resumed", "last_leaf_failed")
+REQUIRED = ("bruteforce_programs_avoid_premature_stop", "bruteforce_programs", "grid_programs", "programs_with_failures", "programs_split_and_resumed", "last_leaf_failed")
 SHARDS = {"quick": 10, "thorough": 16}
 WATCHDOG_S = {"quick": 900, "thorough": 3 * 3600}
 
@@ -84,18 +84,21 @@ def run_bruteforce(ctx: Ctx, rng, store, kind: str, pidx: int) -> None:
     n_splits = rng.choice([0, 0, 1, 1, 2, 3]) if n > 1 else 0
     cuts = sorted(rng.sample(range(1, n), min(n_splits, n - 1))) if n > 1 else []
     seeds = [rng.choice([None, rng.randint(0, 10 ** 6)]) for _ in range(len(cuts) + 1)]
+    aps = pidx % 3 == 1     # avoid_premature_stop=True: in a sequential run it must not change what is visited
+    if aps:
+        ctx.count("bruteforce_programs_avoid_premature_stop")
     study = optuna.create_study(storage=store.primary, study_name=f"c14-{ctx.shard[0]}-{pidx}")
-    case = {"sampler": "bruteforce", "backend": kind, "program_index": pidx, "seed": ctx.seed, "n_leaves": n, "cuts": cuts, "sampler_seeds": seeds,
+    case = {"avoid_premature_stop": aps, "sampler": "bruteforce", "backend": kind, "program_index": pidx, "seed": ctx.seed, "n_leaves": n, "cuts": cuts, "sampler_seeds": seeds,
             "tree": tree, "outcomes": collections.Counter(outcome.values())}
-    facts = {"sampler": "bruteforce", "backend_family": backends.family_of(kind), "split": bool(cuts)}
+    facts = {"sampler": "bruteforce", "backend_family": backends.family_of(kind), "split": bool(cuts), "avoid_premature_stop": aps}
     prev = 0
     stopped_by_itself = True
     try:
         for i, c in enumerate(cuts):
-            study.sampler = optuna.samplers.BruteForceSampler(seed=seeds[i])
+            study.sampler = optuna.samplers.BruteForceSampler(seed=seeds[i], avoid_premature_stop=aps)
             study.optimize(objective, n_trials=c - prev, catch=(RuntimeError,))
             prev = c
-        study.sampler = optuna.samplers.BruteForceSampler(seed=seeds[-1])
+        study.sampler = optuna.samplers.BruteForceSampler(seed=seeds[-1], avoid_premature_stop=aps)
         study.optimize(objective, catch=(RuntimeError,))
     except _Stop:
         stopped_by_itself = False
